@@ -162,9 +162,14 @@ func init() {
 			nGen = c.Pick(1500, 40000)
 			return nil
 		},
-		Cases: func(c *mon.Ctx) int { return nGen + nSeeds + c.Pick(3000, 100000) },
+		Cases: func(c *mon.Ctx) int { return c17PairCases(c) + nGen + nSeeds + c.Pick(3000, 100000) },
 		RunCase: func(c *mon.Ctx, i int) {
 			rng := c.Rng(i, 0)
+			if i < c17PairCases(c) {
+				c17Pair(c, i, rng)
+				return
+			}
+			i -= c17PairCases(c)
 			if i < nGen {
 				k := 2 + rng.Intn(4)
 				if i%7 == 0 {
@@ -219,6 +224,10 @@ func init() {
 			ev.Coverage["extension_bases"] = r.Counters["bases_extension"]
 			ev.Coverage["extension_permutations"] = r.Counters["permutations_extension"]
 			ev.Coverage["general_name_pool_labels_used"] = r.SetSize("gn_labels")
+			ev.Coverage["general_name_pool_pairs"] = r.Counters["pool_pairs"]
+			if r.Counters["pool_pairs"] < int64(len(gen.GNPool)*(len(gen.GNPool)-1)/2) {
+				gates = append(gates, "not every pair of general-name pool entries was built")
+			}
 			if r.Counters["bases_san"] < 500 || r.Counters["bases_extension"] < 500 {
 				gates = append(gates, "too few bases compared")
 			}
@@ -228,4 +237,54 @@ func init() {
 			return gates
 		},
 	})
+}
+
+// ---- exhaustive pairs ----
+//
+// "A finding about one name is not suppressed or produced by where another name sits" is a statement about PAIRS of
+// entries. Random lists only contain a given pair by luck, so every unordered pair of pool entries is also built
+// once as a two-entry SAN (quick: TLS template; thorough: also S/MIME, EV and a three-entry list with a neutral name
+// in the middle) and compared with its reversal.
+func c17PairCases(c *mon.Ctx) int {
+	n := len(gen.GNPool)
+	return n * (n - 1) / 2 * c.Pick(1, 4)
+}
+
+func c17Pair(c *mon.Ctx, i int, rng *rand.Rand) {
+	n := len(gen.GNPool)
+	np := n * (n - 1) / 2
+	variant, k := i/np, i%np
+	a := 0
+	for k >= n-1-a {
+		k -= n - 1 - a
+		a++
+	}
+	b := a + 1 + k
+	ea, eb := gen.GNPool[a], gen.GNPool[b]
+	gns := []*der.Node{ea.Node(), eb.Node()}
+	labels := []string{ea.Label, eb.Label}
+	var spec *gen.Spec
+	switch variant {
+	case 1:
+		spec = gen.SMIMELeaf(gen.D(2024, 3, 1), "alice@example.com")
+	case 2:
+		spec = gen.TLSLeaf(gen.D(2017, 3, 1), "www.example.com")
+		spec.ReplaceExt(gen.ExtPolicies(gen.OIDPolEV))
+	case 3:
+		spec = gen.TLSLeaf(gen.D(2024, 3, 1), "www.example.com")
+		gns = []*der.Node{ea.Node(), gen.GNDNS("www.example.com"), eb.Node()}
+		labels = []string{ea.Label, "dns-good", eb.Label}
+	default:
+		spec = gen.TLSLeaf(gen.D(2024, 3, 1), "www.example.com")
+		if (a+b)%2 == 1 {
+			spec.Subject = gen.Name(gen.A(gen.OIDC, "US"), gen.A(gen.OIDO, "Example Org"))
+		}
+	}
+	spec.ReplaceExt(gen.ExtSAN(false, gns...))
+	dc, err := der.ParseCert(spec.DER())
+	if err != nil {
+		return
+	}
+	c.R.Count("pool_pairs", 1)
+	c17Judge(c, fmt.Sprintf("gen/pair%v", labels), dc, "san", sanList, rng, labels)
 }
